@@ -290,9 +290,12 @@ func (h *heap) step(t *verifsim.Tape) (string, *core.Violation) {
 			ms = append(ms, it.m)
 		}
 		var s types.Set
-		if n == 0 && t.Bool() {
+		switch {
+		case n == 0 && t.Intn(3) == 1:
 			s = types.NewSet()
-		} else {
+		case n == 0 && t.Intn(3) == 1:
+			s = types.Set{} // the zero value is the empty set too
+		default:
 			s = types.NewSet(buf...)
 		}
 		h.add(&live{item: item{s, mset(ms)}, sbuf: buf})
@@ -308,9 +311,12 @@ func (h *heap) step(t *verifsim.Tape) (string, *core.Violation) {
 			m.fields[string(k)] = it.m
 		}
 		var r types.Record
-		if n == 0 && t.Bool() {
+		switch {
+		case n == 0 && t.Intn(3) == 1:
 			r = types.NewRecord(nil)
-		} else {
+		case n == 0 && t.Intn(3) == 1:
+			r = types.Record{} // the zero value is the empty record too
+		default:
 			r = types.NewRecord(rm)
 		}
 		h.add(&live{item: item{r, m}, rbuf: rm})
